@@ -178,30 +178,91 @@ def model_ladder(goal, pc, side, tmo):
                 return {'verdict': 'sat', 'model': sym.model_to_dict(m), 'secs': time.time() - t0, 'how': 'pinned(%d)' % pi}
     return None
 
-def witness_pins(st, cfg, maxiters):
-    """A concrete state designed to reach the given status (G=A=0, s=z=e, x,y,c,h,b chosen so
-    that the documented test for that status holds); used only as reachability witness."""
+def witnesses(st, cfg, maxiters, count=3):
+    """Designed concrete states reaching the given status: generic small-rational data G, A,
+    an interior iterate, and c, h, b solved (exact rational arithmetic) so that the documented
+    test for that status holds with generous tolerances.  Used (i) as reachability twins and
+    (ii) as anchors of the counterexample search (data pinned to a state known to satisfy a
+    path condition).  Junk is planted in the unreferenced upper triangles."""
+    import random
+    from fractions import Fraction as Fr
     from vp.checks import conelp_h as H
+    from vp.oracles import cone as O
     dims, n, p = cfg['dims'], cfg['n'], cfg['p']
-    N = H.N_of(dims); e = H.e_vector(dims)
-    if N == 0: return None
-    pins = {'tau': 1, 'kappa': 1, 'k': (maxiters if (st == 'unknown' or cfg.get('kclass') == 'ge') else 0)}
-    for i in range(N):
-        pins['hs%d' % i] = int(e[i]); pins['hz%d' % i] = int(e[i])
-        for j in range(n): pins['G%d_%d' % (i, j)] = 0
-    for i in range(p):
-        pins['hy%d' % i] = 0; pins['b%d' % i] = 0
-        for j in range(n): pins['A%d_%d' % (i, j)] = 0
-    hs = {'optimal': 1, 'unknown': 1, 'primal infeasible': -1, 'dual infeasible': 1}[st]
-    for i in range(N): pins['h%d' % i] = hs*int(e[i])
-    for j in range(n):
-        pins['c%d' % j] = -1 if st == 'dual infeasible' else 0
-        pins['hx%d' % j] = 1 if st == 'dual infeasible' else 0
-    if st in ('optimal', 'unknown'):
-        pins.update(feastol=1000, abstol=1000, reltol=1000)
-    else:
-        pins.update(feastol=1000, abstol='1/1000', reltol='1/1000')
-    return pins
+    N = H.N_of(dims)
+    if N == 0: return []
+    lw = H.lower_weights(dims); lowpos = set(i for i, _ in lw)
+    out = []
+    for t in range(count):
+        rnd = random.Random(1000*t + 17*N + n + p)
+        ri = lambda: Fr(rnd.choice([-2, -1, 1, 2, 3]))
+        e = [Fr(int(v)) for v in H.e_vector(dims)]
+        def interior(shift):
+            # generic strictly interior point: l: 1+shift.., q: (m+1+shift, 1, ..), s: diagonally dominant
+            v = [Fr(1 + shift + i) for i in range(dims['l'])]
+            for m in dims['q']: v += [Fr(m + 1 + shift)] + [Fr(1)]*(m - 1)
+            for m in dims['s']:
+                for j in range(m):
+                    for i in range(m): v.append(Fr(m + 1 + shift + i) if i == j else Fr(1))
+            return v
+        s = interior(1); z = interior(t)
+        junk = [i for i in range(N) if i not in lowpos]
+        for i in junk: s[i] = Fr(7); z[i] = Fr(5)
+        G = [[ri() for j in range(n)] for i in range(N)]
+        A = [[ri() for j in range(n)] for i in range(p)]
+        x = [ri() for j in range(n)]; y = [ri() for i in range(p)]
+        tau = Fr(2) if t % 2 == 0 else Fr(1); kappa = Fr(1)
+        Gx = [sum(G[i][j]*x[j] for j in range(n)) for i in range(N)]
+        Ax = [sum(A[i][j]*x[j] for j in range(n)) for i in range(p)]
+        def GTz(Gm): return [sum(w*Gm[i][j]*z[i] for i, w in lw) for j in range(n)]
+        ATy = [sum(A[i][j]*y[i] for i in range(p)) for j in range(n)]
+        pins = {}
+        if st in ('optimal', 'unknown'):
+            h = [(Gx[i] + s[i])/tau for i in range(N)]
+            b = [Ax[i]/tau for i in range(p)]
+            gz = GTz(G)
+            c = [-(gz[j] + ATy[j])/tau for j in range(n)]
+            pins.update(feastol=1000, abstol=1000, reltol=1000)
+        elif st == 'primal infeasible':
+            i0 = lw[0][0]
+            for j in range(n):
+                rest = sum(w*G[i][j]*z[i] for i, w in lw if i != i0) + ATy[j]
+                G[i0][j] = -rest/z[i0]
+            h = [-(2 + (i % 3))*e[i] for i in range(N)]
+            b = [Fr(0)]*p
+            c = [ri() for j in range(n)]
+            pins.update(feastol=1000, abstol=Fr(1, 1000), reltol=Fr(1, 1000))
+        else:
+            c = [ri() for j in range(n)]
+            if sum(c[j]*x[j] for j in range(n)) >= 0:
+                x = [-v for v in x]
+                if sum(c[j]*x[j] for j in range(n)) >= 0: x = [-v for v in c]
+            h = [(3 + (i % 2))*e[i] for i in range(N)]
+            b = [Fr(0)]*p
+            pins.update(feastol=10**6, abstol=Fr(1, 1000), reltol=Fr(1, 1000))
+        for i in junk: h[i] = Fr(3)
+        pins.update(tau=tau, kappa=kappa, k=(maxiters if (st == 'unknown' or cfg.get('kclass') == 'ge') else (t % 2)))
+        for i in range(N):
+            pins['hs%d' % i] = s[i]; pins['hz%d' % i] = z[i]; pins['h%d' % i] = h[i]
+            for j in range(n): pins['G%d_%d' % (i, j)] = G[i][j]
+        for i in range(p):
+            pins['hy%d' % i] = y[i]; pins['b%d' % i] = b[i]
+            for j in range(n): pins['A%d_%d' % (i, j)] = A[i][j]
+        for j in range(n):
+            pins['c%d' % j] = c[j]; pins['hx%d' % j] = x[j]
+        out.append(pins)
+    return out
+
+def pin_formulas(pins, names, only=None):
+    import z3
+    out = []
+    for nme in names:
+        if nme in pins and (only is None or only(nme)):
+            v = pins[nme]
+            out.append((z3.Int(nme) == int(v)) if nme == 'k' else (z3.Real(nme) == z3.RealVal(str(v))))
+    return out
+
+DATA_RE = re.compile(r'^(c\d+|G\d+_\d+|h\d+|A\d+_\d+|b\d+)$')
 
 # ---------------------------------------------------------------------------------- symbolic job
 
@@ -249,7 +310,8 @@ def job(cfg):
     res = {'paths': 0, 'status': {}, 'obl': {'total': 0, 'unsat': 0, 'sat': 0, 'unknown': 0}, 'solver_s': 0.0,
            'sat': [], 'unknown': [], 'errors': [], 'samples': [], 'relax_q': 0, 'reach': {}, 'by_prop': {}}
     state = {}
-    def count(prop, verdict, secs, n=1):
+    def count(prop, verdict, secs, n=1, force=False):
+        if state.get('phase', 1) == 2 and not force: return     # phase 2 re-runs paths already counted
         res['obl']['total'] += n; res['obl'][verdict] += n; res['solver_s'] += secs
         bp = res['by_prop'].setdefault(prop, {'total': 0, 'unsat': 0, 'sat': 0, 'unknown': 0})
         bp['total'] += n; bp[verdict] += n
@@ -262,7 +324,7 @@ def job(cfg):
         d, sol = H.run_conelp(cfg, Wd, A, mk, assume, cap)
         return d, sol
     def on_path(kind, val, ctx):
-        res['paths'] += 1
+        if state.get('phase', 1) == 1: res['paths'] += 1
         A, cap = state['A'], state['cap']
         pc = list(ctx.pc)
         if kind == 'cut':
@@ -283,7 +345,7 @@ def job(cfg):
             res['errors'].append('path ended with %s: %s' % (kind, val)); return
         d, sol = val
         st = sol['status']
-        res['status'][st] = res['status'].get(st, 0) + 1
+        if state.get('phase', 1) == 1: res['status'][st] = res['status'].get(st, 0) + 1
         dn = {key: [A.num(e) for e in v] for key, v in d.items()}
         xs = {nm: H.vec_of(A, sol[nm]) for nm in ('x', 'y', 's', 'z')}
         ores = H.oracle_residuals(A, cfg, dn, xs)
@@ -369,28 +431,61 @@ def job(cfg):
             abs_all = claims(A2, cfg, dn, sol_abs, nm_abs, cap['opts'], k, maxit)
             abs_claims = {lab: g for (_, lab, g, grp) in abs_all if grp == 'abstract'}
             kept, allowed2 = sym.slice_up(pc_abs + A2.side, allowed)
+        # ---- designed witnesses: reachability twin + anchored counterexample search
+        names = set()
+        for f in pc: names |= sym.consts_of(f)
+        found = state.setdefault('found', set())
+        anchor = None
+        matched = state.setdefault('matched', set())
+        for wi, pins in enumerate(witnesses(st, cfg, maxit)):
+            if (st, wi) in matched: continue             # a concrete state follows exactly one path
+            allp = pin_formulas(pins, names)
+            if prove.feasible(pc + allp, 2000) != 'sat': continue
+            matched.add((st, wi))
+            res['reach'][st] = True                      # this path is exactly feasible (twin sat)
+            anchor = pins
+            for (prop, label, goal, group) in full:      # the witness itself as a test point (instant)
+                if label in found: continue
+                v, m, dt = sym.check(list(pc) + list(A.side) + allp + [z3.Not(goal)], 3000, want_model=True)
+                if v == 'sat':
+                    found.add(label); count(prop, 'sat', dt)
+                    res['sat'].append({'prop': prop, 'label': label, 'model': sym.model_to_dict(m), 'status': st,
+                                       'how': 'designed witness %d violates the claim' % wi})
+            break
         # batch: all direct claims in one query, all abstract claims in one query; split on failure
         def decide_one(prop, label, goal, group):
-            found = state.setdefault('found', set())
             und = state.setdefault('undecided', {})
-            if label in found or und.get(label, 0) >= 2:
-                # a counterexample for this claim is already in hand (or two exact queries for it
-                # stayed undecided, which already makes the run inconclusive): do not burn more time
+            phase = state.get('phase', 1)
+            if phase == 2 and label not in state.get('only', ()): return
+            if label in found:
                 res['skipped_after_counterexample'] = res.get('skipped_after_counterexample', 0) + 1
                 return
-            quick_t = min(tmo, 4000)
+            quick_t = min(tmo, 3000)
             if group == 'abstract' and abs_claims is not None:
                 r = prove.prove(abs_claims[label], kept, (), tmo, slice_first=False)
                 if r['verdict'] != 'unsat':
-                    # the abstraction dropped hypotheses: decide on the exact query (also yields a replayable model)
-                    v, m, dt = sym.check(list(pc) + list(A.side) + [z3.Not(goal)], quick_t, want_model=True)
-                    r = {'verdict': v, 'model': sym.model_to_dict(m) if m is not None else None, 'secs': dt}
+                    r = {'verdict': 'unknown', 'model': None, 'secs': r['secs']}   # abstraction dropped hypotheses
             else:
-                r = prove.prove(goal, pc, A.side, tmo)
+                r = prove.prove(goal, pc, A.side, tmo if phase == 2 else quick_t, fallback=(phase == 2), full_query=(phase == 2))
+            if r['verdict'] == 'unknown' and phase == 1:
+                # not decided cheaply: defer the expensive exact search until all paths (and the
+                # designed witnesses, which often settle the label at once) have been seen
+                state.setdefault('pending', []).append((prop, label, list(ctx.taken)))
+                return
+            if r['verdict'] == 'unknown':
+                v, m, dt = sym.check(list(pc) + list(A.side) + [z3.Not(goal)], tmo, want_model=True)
+                r = {'verdict': v, 'model': sym.model_to_dict(m) if m is not None else None, 'secs': dt}
+            if r['verdict'] == 'unknown' and anchor is not None:
+                # anchored search: problem data pinned to a designed state known to satisfy this
+                # path condition, iterate free
+                datap = pin_formulas(anchor, names, lambda nme: bool(DATA_RE.match(nme)) or nme in ('feastol', 'abstol', 'reltol'))
+                v, m, dt = sym.check(list(pc) + list(A.side) + datap + [z3.Not(goal)], quick_t, want_model=True)
+                if v == 'sat':
+                    r = {'verdict': 'sat', 'model': sym.model_to_dict(m), 'secs': dt, 'how': 'anchored'}
             if r['verdict'] == 'unknown' and state.get('ladder_budget', 2) > 0:
                 state['ladder_budget'] = state.get('ladder_budget', 2) - 1
                 r = model_ladder(goal, pc, A.side, quick_t) or r
-            count(prop, r['verdict'], r['secs'])
+            count(prop, r['verdict'], r['secs'], force=True)
             if r['verdict'] == 'sat':
                 found.add(label)
                 res['sat'].append({'prop': prop, 'label': label, 'model': r['model'], 'status': st})
@@ -410,21 +505,29 @@ def job(cfg):
             res['samples'].append({'status': st, 'path_decisions': len(ctx.taken), 'claims': [l for _, l, _, _ in full][:6],
                                    'smt_first_claim': z3.Not(full[2][2]).sexpr()[:300]})
         # reachability twin: the exact path condition of this returning path is satisfiable
-        # reachability twin: a designed, fully concrete witness state for this status must satisfy
-        # the exact path condition of one of the explored returning paths (solver-evaluated)
-        if st not in res['reach'] and st in ('optimal', 'primal infeasible', 'dual infeasible', 'unknown'):
-            pins = witness_pins(st, cfg, cap['maxiters'])
-            if pins is not None:
-                names = set()
-                for f in pc: names |= sym.consts_of(f)
-                extra = []
-                for nme in names:
-                    if nme in pins:
-                        extra.append((z3.Int(nme) if nme == 'k' else z3.Real(nme)) == pins[nme])
-                v = prove.feasible(pc + extra, 2000)
-                if v == 'sat': res['reach'][st] = True
     t_job = time.time()
     st_ = sym.explore(run_one, on_path=on_path, max_paths=int(cfg.get('_max_paths', 3000)))
+    # ---- phase 2: claims that stayed undecided by the cheap proofs and for which no designed
+    # witness gave a counterexample: exact search on (at most two of) their paths
+    pend = state.get('pending', [])
+    state['phase'] = 2
+    done = {}
+    for (prop, label, prefix) in pend:
+        if label in state.get('found', set()): continue
+        if done.get(label, 0) >= 2:
+            continue
+        done[label] = done.get(label, 0) + 1
+        state['only'] = {label}
+        sym.CTX.start_path(prefix, ())
+        try:
+            val = run_one()
+        except BaseException as e:
+            res['errors'].append('phase 2 re-execution diverged: %r' % (e,)); continue
+        on_path('return', val, sym.CTX)
+    res['deferred'] = len(pend)
+    for (prop, label, prefix) in pend:
+        if label not in state.get('found', set()) and done.get(label, 0) == 0:
+            pass
     res['wall'] = round(time.time() - t_job, 1)
     res['relax_q'] = st_['relax_queries']
     res['relax_s'] = st_['relax_time']
